@@ -241,7 +241,7 @@ def consumed_contract(ctx, R2, dv):
                          sample={"rule": R2, "path": kind + "/delimited", "class": cls, "line": r.line})
             continue
         if kind == "no-marker":
-            ok = cls == "ALL-BUT-TAIL" and kept_tail_ok(dv, r, marker, marker_expr)
+            ok = (cls == "ALL-BUT-TAIL" and kept_tail_ok(dv, r, marker, marker_expr)) or rfind_tail_ok(dv, r, marker)
             what = ("with no complete marker in the buffer the decoder must keep the longest buffer suffix that is a proper prefix of the marker; "
                     f"it reports `{short(r.ast.value.elts[1])}`: a read ending inside the marker loses the head of the next frame")
         else:
@@ -264,6 +264,58 @@ def directly_under(g, rid, atom, ignore=()):
         if best is None or _pos.get(id(t), t.lineno) >= _pos.get(id(best[0]), best[0].lineno):
             best = (t, lab)
     return best is not None and (atom, True) in facts(best[0], best[1] == "true")
+
+
+def rfind_tail_ok(dv, r, marker):
+    """The same kept tail found by one search: consumed = h where h = buf.rfind(<first byte of the marker>, max(len(buf) - len(marker) + 1, 0))
+    was found and `marker.startswith(buf[h:])`, else len(buf) - exact when the marker's first byte occurs in it only once (then the last
+    occurrence of that byte in the last len(marker)-1 bytes is the only possible start of a marker head)."""
+    if not isinstance(marker, (bytes, str)) or len(marker) < 2 or marker.count(marker[:1]) != 1:
+        return False
+    e = r.ast.value.elts[1]
+    if not isinstance(e, ast.Name):
+        return False
+    g = dv.cfg
+    dead = dv.infeasible_defs(r)
+    defs = [d for d in dv.rd[r.id].get(e.id, set()) if d not in dead]
+    seen_head = seen_all = False
+    from sa.guards import resolved
+    for d in defs:
+        v = g.nodes[d].ast.value if isinstance(g.nodes[d].ast, ast.Assign) else None
+        if v is None:
+            return False
+        if unparse(v) == f"len({dv.buf})":
+            seen_all = True
+            continue
+        if not isinstance(v, ast.Name):
+            return False
+        h = v.id
+        hd = [n for n in walk_no_nested(dv.fn) if isinstance(n, ast.Assign) and len(n.targets) == 1 and unparse(n.targets[0]) == h]
+        if len(hd) != 1 or not (isinstance(hd[0].value, ast.Call) and unparse(hd[0].value.func) == f"{dv.buf}.rfind" and len(hd[0].value.args) == 2):
+            return False
+        needle, lo = hd[0].value.args
+        nf = dv.fold_str(needle)
+        if nf is None and isinstance(needle, ast.Subscript) and isinstance(needle.slice, ast.Slice) and needle.slice.lower is None \
+                and isinstance(needle.slice.upper, ast.Constant) and needle.slice.upper.value == 1:
+            base = dv.fold_str(needle.value)
+            nf = base[:1] if base is not None else None
+        if nf != marker[:1]:
+            return False
+        lo_t = unparse(resolved(dv.fn, lo)).replace(" ", "")
+        k = len(marker)
+        lo_ok = lo_t in (f"max(len({dv.buf})-len({marker!r})+1,0)", f"max(0,len({dv.buf})-len({marker!r})+1)", f"max(len({dv.buf})-{k - 1},0)",
+                         f"max(0,len({dv.buf})-{k - 1})", f"max(len({dv.buf})-{k}+1,0)")
+        if not lo_ok:
+            return False
+        fs = set()
+        for t, lab in g.guards(d, exc=False):
+            fs |= facts(t, lab == "true")
+        found = (f"{h} != -1", True) in fs or (f"{h} == -1", False) in fs or (f"{h} >= 0", True) in fs
+        prefix = any(tv and a.replace(" ", "") in (f"{marker!r}.startswith({dv.buf}[{h}:])",) for a, tv in fs)
+        if not (found and prefix):
+            return False
+        seen_head = True
+    return seen_head and seen_all
 
 
 def kept_tail_ok(dv, r, marker, marker_expr):
